@@ -150,6 +150,24 @@ pub fn run(ctx: &Ctx) -> i32 {
     }
     let n_random = ctx.size(5000, 60000);
     let seed = ctx.seed;
+    // a targeted family the short exhaustive vectors cannot reach: every ordered pair
+    // of translatable inputs (files and '-') with every target, with and without -f
+    let goods = ["good.json", "good.yaml", "good", "-"];
+    let mut pairs: Vec<Vec<String>> = vec![];
+    for a in goods {
+        for b in goods {
+            for t in ["-tj", "-ty", "-tm", "-tt"] {
+                pairs.push(vec![t.to_string(), a.to_string(), b.to_string()]);
+                pairs.push(vec![a.to_string(), t.to_string(), b.to_string()]);
+            }
+        }
+    }
+    let pair_acc = crate::par::run(pairs.len(), 4, |i, acc| {
+        acc.count("argv_two_input_pairs");
+        acc.distinct(&pairs[i]);
+        judge(&pairs[i], STDINS[0], &StdoutKind::Pipe, acc);
+        judge(&pairs[i], STDINS[0], &StdoutKind::File, acc);
+    });
     let acc = crate::par::run(total + n_random, 16, |i, acc| {
         let mut rng = Rng::derive(seed, 0xc13, i as u64);
         let argv: Vec<String> = if i < total {
@@ -177,7 +195,9 @@ pub fn run(ctx: &Ctx) -> i32 {
             judge(&argv, STDINS[(i / 3) % 3], &k2, acc);
         }
     });
-    let rule = format!("EVERY argument vector of length 0..={} over a {}-token vocabulary (-f/-t with every name and alias in attached, detached and '=' forms, repeated, missing value, invalid name; unknown short/long options; -h --help -V --version and clustered/valued forms; '--'; '-'; translatable / malformed / undetectable / unrepresentable / missing / directory / empty paths) plus {} random vectors of length 3-6; each run with a pipe and (rotating) a file, a pseudo-terminal or /dev/full as stdout, stdin content rotating over translatable / malformed / empty; distinct non-trivial = distinct argument vectors", exhaustive_len, v, n_random);
+    let mut acc = acc;
+    acc.merge(pair_acc);
+    let rule = format!("EVERY argument vector of length 0..={} over a {}-token vocabulary (-f/-t with every name and alias in attached, detached and '=' forms, repeated, missing value, invalid name; unknown short/long options; -h --help -V --version and clustered/valued forms; '--'; '-'; translatable / malformed / undetectable / unrepresentable / missing / directory / empty paths) plus {} random vectors of length 3-6 and every ordered pair of translatable inputs x every target; each run with a pipe and (rotating) a file, a pseudo-terminal or /dev/full as stdout, stdin content rotating over translatable / malformed / empty; distinct non-trivial = distinct argument vectors", exhaustive_len, v, n_random);
     let mut extra = serde_json::Map::new();
     extra.insert("argv_exhaustive_up_to_length".into(), json!(exhaustive_len));
     ev::finish(
